@@ -1,7 +1,7 @@
 (* C25 property theorems. Nothing but statements closed by `exact`, Print Assumptions and non-vacuity examples. *)
 From Coq Require Import List ZArith String Bool.
 From GoProbe.Base Require Import CorrLib.
-From GoProbe.C25 Require Import Model Proofs1 Proofs2 Proofs3 Proofs4 Proofs5 Proofs6 Proofs7 Proofs8 Proofs9 Proofs10.
+From GoProbe.C25 Require Import Model Proofs1 Proofs2 Proofs3 Proofs4 Proofs5 Proofs6 Proofs7 Proofs8 Proofs9 Proofs10 Proofs11 Proofs12.
 Import ListNotations.
 Open Scope Z_scope.
 
@@ -48,10 +48,8 @@ Theorem c25_leftovers_invisible : forall nm dst src o k, is_stage (n_stage nm) =
   /\ (forall i ds d, list_days s i = Ok ds -> In d ds -> is_backup (snd (fst d)) = false)
   /\ (forall nm' i ts dn, In dn (prefix_matches nm' s i ts) -> is_backup dn = false)
   (* the literal bisection + scans of binarySearchPrefix (prefix_search) returns only non-backup names with the
-     prefix. NOT proved: that it FINDS the day directory whenever one exists wherever leftovers sort (needs the
-     contiguity of prefix matches in the sorted listing); that half is pinned by the run: corr compares the real
-     search result with the literal model at every crash point for every day of the month, holds requires the
-     result to be the day directory the walk sees. *)
+     prefix (soundness); that it FINDS a day directory whenever one exists, wherever leftovers sort, is
+     c25_prefix_search_complete below. *)
   /\ (forall nm' i ts x, prefix_search nm' s i ts = Some x -> is_backup x = false /\ has_prefix (n_tsname nm' ts) x = true)
   /\ (forall o', plans o' (strip_leftovers s) src = plans o' s src)
   /\ (forall a y m dn, exists dnb, backup_path nm [a; y; m; dn] = [a; y; m; dnb] /\ is_backup dnb = true
@@ -59,6 +57,34 @@ Theorem c25_leftovers_invisible : forall nm dst src o k, is_stage (n_stage nm) =
   /\ (forall r n, leftover (n_stage nm :: r, n) = true).
 Proof. exact leftovers_invisible''. Qed.
 Print Assumptions c25_leftovers_invisible.
+
+(* completeness of the literal prefix search (gpfile.binarySearchPrefix: bisection over the byte-ordered listing
+   of the month directory, then a scan to the left and a scan to the right over adjacent names with the prefix
+   when the bisection lands on a merge backup): in EVERY file-system state - hence in every crash state of a
+   merge, whatever backups and stage leftovers exist and wherever they sort - if the month directory lists a
+   non-backup entry carrying the day's prefix, the search returns a non-backup entry carrying the prefix; a
+   DirWriter therefore appends to, and a DirReader recovers to, a real day directory and never misses it because
+   of a leftover. Rests on: sort_by String.leb yields a sorted listing (sort_by_sorted), names with a common
+   prefix are contiguous in byte order (prefix_between), and the bisection keeps every prefixed index inside
+   [low, high] (bsearch_complete_gen). *)
+Theorem c25_prefix_search_complete : forall nm s i ts d,
+  In d (month_names nm s i ts) -> has_prefix (n_tsname nm ts) d = true -> is_backup d = false ->
+  (exists x, prefix_search nm s i ts = Some x /\ In x (month_names nm s i ts)
+             /\ is_backup x = false /\ has_prefix (n_tsname nm ts) x = true)
+  (* and it is THE day directory when that is the only non-backup entry with the prefix (one directory per day) *)
+  /\ ((forall e, In e (month_names nm s i ts) -> has_prefix (n_tsname nm ts) e = true -> is_backup e = false -> e = d)
+      -> prefix_search nm s i ts = Some d).
+Proof. exact prefix_search_complete_full. Qed.
+Print Assumptions c25_prefix_search_complete.
+
+(* non-vacuity: at crash point 9 of the example merge the month directory lists the backup BEFORE the day
+   directory (the bisection lands on the backup, the scan to the right finds the day) *)
+Example c25_prefix_search_example :
+  let s := crash_state ex_names ex_dst ex_src ex_opts 9 in
+  month_names ex_names s "eth0" 1704844800 = ["1704844800_a.gpdb-merge-backup-7"; "1704844800_b"]%string
+  /\ has_prefix (n_tsname ex_names 1704844800) "1704844800_b" = true /\ is_backup "1704844800_b" = false
+  /\ prefix_search ex_names s "eth0" 1704844800 = Some "1704844800_b"%string.
+Proof. repeat split; vm_compute; reflexivity. Qed.
 
 (* "never both, never neither" for the completed merge: for every plan the merge executes (every non-skipped
    day of every selected interface), the day directories of that day which the query walk and the merge listing
